@@ -2245,9 +2245,15 @@ impl<'store> FindTextSelectionsIter<'store> {
                             true,
                         ));
                     } else {
+                        //we search by end position here: whatever embeds us ends at or after our end,
+                        //but what merely overlaps with us may already end right after our begin
+                        let begin = if let TextSelectionOperator::Overlaps { .. } = self.operator {
+                            reftextselection.begin()
+                        } else {
+                            reftextselection.end()
+                        };
                         self.textseliters.push((
-                            self.resource
-                                .range(reftextselection.end(), self.resource.textlen() + 1),
+                            self.resource.range(begin, self.resource.textlen() + 1),
                             false, //search backwards!!
                         ));
                     }
